@@ -945,8 +945,14 @@ pub async fn client_tcp(dict: Arc<Dictionary>, spec: Vec<String>) -> String {
     tokio::spawn(async move {
         DiameterClient::handle(&mut handler, d3).await;
     });
+    // `gap=<s>`: that many seconds of REAL time pass between the first request and the second (a request that stays
+    // unanswered for a long while is still a request that is waiting)
+    let gap: u64 = kv.get("gap").and_then(|x| x.parse().ok()).unwrap_or(0);
     let mut futs = vec![];
     for i in 0..n {
+        if i == 1 && gap > 0 {
+            tokio::time::sleep(Duration::from_secs(gap)).await;
+        }
         let hbh = base.wrapping_add(i as u32);
         // requests of different sizes so that eager answers overtake a request still being written
         let marker = "x".repeat([0usize, 10, 3000, 70000][i % 4]);
